@@ -139,3 +139,8 @@ CHECKS["C27"] = {"pkg": "api", "shards": 12,
     "technique": "property-based testing (rapid) of the real request multiplexer against a table-driven model of the documented access conditions, with a recording stub gateway as reach detector and a pinned route table",
     "text": "Generated configurations (interface host, whitelist, header and token checks, API-set subsets, credentials) and requests (every route of a pinned route table and unregistered paths, 7 methods, Host / Origin / Referer variants, 9 token kinds incl. superseded, expired, re-signed and edited ones, 11 credential presentations incl. user/password boundary shifts, content types) are served in process; a request the model refuses must not reach the gateway and must get the documented refusal, a request the model admits must not be refused by access control.",
     "note": "reach detection = stub gateway hit count plus refusal signature of the response; known finding csrf-superseded-token is probed separately and its class excluded from the main search; unconfigured-credentials and content-type refusals are tolerated either way"}
+
+CHECKS["C28"] = {"pkg": "api", "shards": 14, "timeout_quick": 900, "timeout_thorough": 3000,
+    "technique": "stateful property-based testing / grammar-based API fuzzing (rapid): generated request sequences against a real in-process node (chain, pool, wallets, storage, running daemon) with a no-panic / no-hang / well-formed-response / still-alive oracle",
+    "text": "Generated request sequences over every endpoint, with parameters drawn from live node values and mutated per field (missing, wrong type, huge, boundary numbers, scientific notation, unicode, long lists), JSON bodies with wrong-typed / missing / unknown members and broken JSON, and encoded transactions that spend spent, unknown and unsigned inputs; every request must return within the watchdog with a status in 200-599 and a body that parses as its content type, no handler may panic, and the node must still answer /health afterwards; the verify endpoint must return a verdict for any encoded transaction.",
+    "note": "in-process serving through the verif hook VerifNewServerMux (a panic is seen directly); address-derivation counts are bounded to 10 and wallets use sha256-xor to keep cases cheap; every case runs on a fresh copy of a node template built once per process"}
